@@ -267,7 +267,7 @@ def gen_cases(ctx, pool):
         ['M', [], [['A', [], [['S', [1], [leaf('x')], 's1'], ['S', [1], [leaf('x')], 's1']]]]],
     ]
     ctx.count('corpus', len(cases))
-    nrand = 420 if quick else 6000
+    nrand = 380 if quick else 6000
     for k in range(nrand):
         r = rng.random()
         flaw = None
